@@ -92,16 +92,79 @@ Lemma relex_fields p z ws cm : pst (relex p z ws cm) = pst p /\ plevel (relex p 
   perr (relex p z ws cm) = perr p.
 Proof. repeat split. Qed.
 
+Lemma css_inv_next z t b z' : css_inv z -> css_next z = Some (t, b, z') -> css_inv z'.
+Proof.
+  intros Hi Hn. destruct (css_total_proof z Hi) as (t2 & b2 & z2 & Hn2 & Hi2). rewrite Hn in Hn2.
+  assert (z2 = z') by congruence. subst. exact Hi2.
+Qed.
+
+(* an optional whitespace token (the lexer merges adjacent whitespace, so there is at most one) *)
+Definition ws_t := option (list Z).
+Definition optws (o : ws_t) : list tok := match o with Some b => [(TWhitespace, b)] | None => [] end.
+Definition isws (o : ws_t) : bool := match o with Some _ => true | None => false end.
+
+(* popToken skips the whitespace and remembers it in prevWS *)
+Lemma pop_token_ows F allow p o t b ts : css_inv (pl p) -> keepws p = false ->
+  lexes (pl p) (optws o ++ (t, b) :: ts) -> plain_tok t = true -> (1 <= F)%nat ->
+  exists z', pop_token F allow p = POk (t, b, relex p z' (isws o) false) /\ lexes z' ts /\ css_inv z'.
+Proof.
+  intros Hi Hkw Hl Hp HF. destruct o as [wb|]; cbn [optws app isws] in *.
+  - destruct (lexes_cons _ _ _ _ Hl) as (z1 & Hn1 & Hl1 & _).
+    destruct (lexes_cons _ _ _ _ Hl1) as (z2 & Hn2 & Hl2 & _).
+    exists z2. split; [|split; [exact Hl2|eapply css_inv_next; [|exact Hn2]; eapply css_inv_next; eassumption]].
+    unfold pop_token, lex_next. cbn [set_prevcomment set_prevws pl]. rewrite Hn1. cbn [pbind fst snd].
+    destruct F as [|f]; [lia|]. rewrite pop_loop_eq. cbn [set_pl set_prevcomment set_prevws keepws]. rewrite Hkw.
+    change (is_t TWhitespace TWhitespace) with true. change (is_t TWhitespace TComment) with false. cbn [negb andb orb].
+    unfold lex_next. cbn [set_pl set_prevcomment set_prevws pl]. rewrite Hn2. cbn [pbind fst snd]. rewrite pop_loop_eq.
+    unfold plain_tok in Hp. apply andb_true_iff in Hp. destruct Hp as [H1 H2].
+    apply negb_true_iff in H1. apply negb_true_iff in H2. rewrite H1, H2. rewrite andb_false_r. cbn [orb].
+    destruct p; reflexivity.
+  - destruct (pop_token_plain F allow p t b ts Hl Hp) as (z' & Hpop & Hl' & Hn).
+    exists z'. split; [exact Hpop|]. split; [exact Hl'|]. eapply css_inv_next; eassumption.
+Qed.
+
+Lemma pop_token_eof_ows F allow p o : keepws p = false -> lexes (pl p) (optws o) -> (1 <= F)%nat ->
+  exists b z', pop_token F allow p = POk (TError, b, relex p z' (isws o) false).
+Proof.
+  intros Hkw Hl HF. destruct o as [wb|]; cbn [optws isws] in *.
+  - destruct (lexes_cons _ _ _ _ Hl) as (z1 & Hn1 & Hl1 & _).
+    destruct (lexes_nil _ Hl1) as (b & z2 & Hn2). exists b, z2.
+    unfold pop_token, lex_next. cbn [set_prevcomment set_prevws pl]. rewrite Hn1. cbn [pbind fst snd].
+    destruct F as [|f]; [lia|]. rewrite pop_loop_eq. cbn [set_pl set_prevcomment set_prevws keepws]. rewrite Hkw.
+    change (is_t TWhitespace TWhitespace) with true. change (is_t TWhitespace TComment) with false. cbn [negb andb orb].
+    unfold lex_next. cbn [set_pl set_prevcomment set_prevws pl]. rewrite Hn2. cbn [pbind fst snd]. rewrite pop_loop_eq.
+    change (is_t TError TWhitespace) with false. change (is_t TError TComment) with false. rewrite andb_false_r. cbn [orb].
+    destruct p; reflexivity.
+  - apply pop_token_eof. exact Hl.
+Qed.
+
+Lemma next_fuel_pos p : css_inv (pl p) -> (1 <= next_fuel p)%nat.
+Proof. intros _. unfold next_fuel. lia. Qed.
+
+Ltac pop_tac F allow q Hiq Hkq Hl Hpl HF z Hpop Hl' Hi' :=
+  lazymatch type of Hl with
+  | lexes _ ((TWhitespace, ?wb) :: (?t, ?b) :: ?ts) =>
+      destruct (pop_token_ows F allow q (Some wb) t b ts Hiq Hkq Hl Hpl HF) as (z & Hpop & Hl' & Hi')
+  | lexes _ ((?t, ?b) :: ?ts) =>
+      destruct (pop_token_ows F allow q None t b ts Hiq Hkq Hl Hpl HF) as (z & Hpop & Hl' & Hi')
+  end; cbn [isws] in Hpop.
+
+Lemma next_fuel_lexes p t b ts : css_inv (pl p) -> lexes (pl p) ((t, b) :: ts) -> exists k, next_fuel p = S (S (S k)).
+Proof.
+  intros Hi Hl. destruct (lexes_cons _ _ _ _ Hl) as (z' & Hn & _ & He).
+  destruct (next_fuel_S p _ _ _ Hi Hn He) as (k & HF & _). eauto.
+Qed.
+
 (* the end of a ruleset *)
-Lemma step_end p st0 rb ts : wf_state p (SQualifiedRuleDeclarationList :: st0) ((TRightBrace, rb) :: ts) ->
+Lemma step_end p st0 o rb ts : wf_state p (SQualifiedRuleDeclarationList :: st0) (optws o ++ (TRightBrace, rb) :: ts) ->
   exists p', parse_next p = POk (GEndRuleset, p') /\ ptt p' = TRightBrace /\ pdata p' = rb /\ perr p' = false /\
     wf_state p' st0 ts.
 Proof.
   intros (Hi & Hl & Hst & Hlv & Hpe & Hkw & Hsty).
   unfold parse_next. cbv zeta. change (prevend (set_err p false)) with (prevend p). rewrite Hpe.
-  destruct (pop_token_plain (next_fuel p) true (set_err p false) TRightBrace rb ts Hl eq_refl) as (z' & Hpop & Hl' & Hn).
+  destruct (pop_token_ows (next_fuel p) true (set_err p false) o TRightBrace rb ts Hi Hkw Hl eq_refl (next_fuel_pos p Hi))
+    as (z' & Hpop & Hl' & Hi').
   rewrite Hpop. cbn [pbind fst snd].
-  destruct (next_fuel_S p _ _ _ Hi Hn eq_refl) as (k & _ & Hi').
   cbn [set_tok relex set_err pst]. rewrite Hst.
   unfold parse_qualified_rule_declaration_list. rewrite skip_semicolons_none by (cbn; discriminate). cbn [pbind]. cbv zeta.
   cbn [set_tok ptt]. evis. cbn [orb]. unfold pop_st. cbn [set_tok relex set_err pst]. rewrite Hst. cbn [pbind].
@@ -112,55 +175,53 @@ Proof.
 Qed.
 
 (* the end of the input at the top level *)
-Lemma step_eof p : wf_state p [SStylesheet] [] ->
+Lemma step_eof p o : wf_state p [SStylesheet] (optws o) ->
   exists p', parse_next p = POk (GError, p') /\ perr p' = false /\ ptt p' = TError.
 Proof.
   intros (Hi & Hl & Hst & Hlv & Hpe & Hkw & Hsty).
   unfold parse_next. cbv zeta. change (prevend (set_err p false)) with (prevend p). rewrite Hpe.
-  destruct (pop_token_eof (next_fuel p) true (set_err p false) Hl) as (b & z' & Hpop). rewrite Hpop. cbn [pbind fst snd].
+  destruct (pop_token_eof_ows (next_fuel p) true (set_err p false) o Hkw Hl (next_fuel_pos p Hi)) as (b & z' & Hpop).
+  rewrite Hpop. cbn [pbind fst snd].
   cbn [set_tok relex set_err pst]. rewrite Hst. unfold parse_stylesheet. cbn [set_tok ptt]. evis. cbn [orb].
   eexists. split; [reflexivity|]. split; reflexivity.
 Qed.
 
 (* a ruleset whose selector is one identifier *)
-Lemma step_begin p st0 sel lb ts :
-  wf_state p (SStylesheet :: st0) ((TIdent, sel) :: (TLeftBrace, lb) :: ts) -> one_of [44; 62; 43; 126] sel = false ->
+Lemma step_begin p st0 o1 sel o2 lb ts :
+  wf_state p (SStylesheet :: st0) (optws o1 ++ (TIdent, sel) :: optws o2 ++ (TLeftBrace, lb) :: ts) ->
+  one_of [44; 62; 43; 126] sel = false ->
   exists p', parse_next p = POk (GBeginRuleset, p') /\ ptt p' = TWhitespace /\ pdata p' = [] /\
     pbuf p' = [(TIdent, sel)] /\ perr p' = false /\
     wf_state p' (SQualifiedRuleDeclarationList :: SStylesheet :: st0) ts.
 Proof.
   intros (Hi & Hl & Hst & Hlv & Hpe & Hkw & Hsty) Hsp.
-  unfold parse_next. cbv zeta. change (prevend (set_err p false)) with (prevend p). rewrite Hpe.
-  destruct (pop_token_plain (next_fuel p) true (set_err p false) TIdent sel _ Hl eq_refl) as (z1 & Hpop & Hl1 & Hn1).
-  rewrite Hpop. cbn [pbind fst snd].
-  destruct (next_fuel_S p _ _ _ Hi Hn1 eq_refl) as (k & HF & Hi1). rewrite HF.
-  set (F := S (S (S k))).
-  cbn [set_tok relex set_err pst]. rewrite Hst.
-  unfold parse_stylesheet. cbn [set_tok ptt]. evis. cbn [orb]. unfold parse_qualified_rule.
-  unfold F at 1. cbn [qualified_loop pbind fst snd set_tok set_buf ptt pdata]. evis. cbn [andb].
-  unfold closes. evis. cbn [orb andb]. unfold adjust_level, opens, closes. evis. cbn [orb].
-  rewrite Hsp. cbn [negb andb set_tok set_buf relex set_err prevws].
+  assert (HFk : exists k, next_fuel p = S (S (S k))).
+  { destruct o1; cbn [optws app] in Hl; eapply next_fuel_lexes; eassumption. }
+  destruct HFk as (k & HF).
+  destruct o1 as [w1|], o2 as [w2|]; cbn [optws app] in Hl.
+  all: unfold parse_next; cbv zeta; change (prevend (set_err p false)) with (prevend p); rewrite Hpe.
+  all: pop_tac (next_fuel p) true (set_err p false) Hi Hkw Hl (eq_refl true) (next_fuel_pos p Hi) z1 Hpop Hl1 Hi1.
+  all: rewrite Hpop; cbn [pbind fst snd]; rewrite HF; set (F := S (S (S k))).
+  all: cbn [set_tok relex set_err pst]; rewrite Hst.
+  all: unfold parse_stylesheet; cbn [set_tok ptt]; evis; cbn [orb]; unfold parse_qualified_rule.
+  all: unfold F at 1; cbn [qualified_loop pbind fst snd set_tok set_buf ptt pdata]; evis; cbn [andb].
+  all: unfold closes; evis; cbn [orb andb]; unfold adjust_level, opens, closes; evis; cbn [orb].
+  all: rewrite Hsp; cbn [negb andb set_tok set_buf relex set_err prevws].
   (* second iteration: the '{' *)
-  match goal with |- context [pop_token F false ?q] => set (p2 := q) end.
-  assert (Hl2 : lexes (pl p2) ((TLeftBrace, lb) :: ts)) by exact Hl1.
-  destruct (pop_token_plain F false p2 TLeftBrace lb ts Hl2 eq_refl) as (z2 & Hpop2 & Hl3 & Hn2).
-  rewrite Hpop2. cbn [pbind fst snd]. evis.
-  assert (Hlv2 : plevel (relex p2 z2 false false) = 0) by exact Hlv. rewrite Hlv2. cbn [Z.eqb andb].
-  assert (Hi2 : css_inv z2).
-  { change (pl p2) with z1 in Hn2.
-    destruct (css_next_step z1 Hi1) as [(_ & Hx)|(ty & b' & z' & Hx & _ & Hiz & _)]; rewrite Hn2 in Hx; [discriminate|].
-    assert (z' = z2) by congruence. subst. exact Hiz. }
-  eexists. split; [reflexivity|]. subst p2.
-  cbn [push_st set_st push_buf set_buf set_tok relex set_err ptt pdata pbuf perr app].
-  split; [reflexivity|]. split; [reflexivity|]. split; [reflexivity|]. split; [reflexivity|].
-  unfold wf_state. cbn [push_st set_st push_buf set_buf set_tok relex set_err pl pst plevel prevend keepws isstyle].
-  split; [exact Hi2|]. split; [exact Hl3|]. rewrite Hst. auto.
-Qed.
-
-Lemma css_inv_next z t b z' : css_inv z -> css_next z = Some (t, b, z') -> css_inv z'.
-Proof.
-  intros Hi Hn. destruct (css_total_proof z Hi) as (t2 & b2 & z2 & Hn2 & Hi2). rewrite Hn in Hn2.
-  assert (z2 = z') by congruence. subst. exact Hi2.
+  all: match goal with |- context [pop_token _ false ?q] => set (p2 := q) end.
+  all: assert (Hi2 : css_inv (pl p2)) by exact Hi1.
+  all: assert (Hk2 : keepws p2 = false) by exact Hkw.
+  all: assert (HF1 : (1 <= F)%nat) by (unfold F; lia).
+  all: pop_tac F false p2 Hi2 Hk2 Hl1 (eq_refl true) HF1 z2 Hpop2 Hl3 Hi3.
+  all: rewrite Hpop2; cbn [pbind fst snd]; evis.
+  all: match goal with |- context [plevel (relex ?pp ?zz ?w false)] =>
+         assert (Hlv2 : plevel (relex pp zz w false) = 0) by exact Hlv; rewrite Hlv2 end.
+  all: cbn [Z.eqb andb].
+  all: eexists; split; [reflexivity|]; subst p2.
+  all: cbn [push_st set_st push_buf set_buf set_tok relex set_err ptt pdata pbuf perr app].
+  all: split; [reflexivity|]; split; [reflexivity|]; split; [reflexivity|]; split; [reflexivity|].
+  all: unfold wf_state; cbn [push_st set_st push_buf set_buf set_tok relex set_err pl pst plevel prevend keepws isstyle].
+  all: split; [exact Hi3|]; split; [exact Hl3|]; rewrite Hst; auto.
 Qed.
 
 Lemma declaration_loop_S f F p : declaration_loop (S f) F p =
@@ -190,77 +251,89 @@ Lemma declaration_loop_S f F p : declaration_loop (S f) F p =
      declaration_loop f F (push_buf p t d)).
 Proof. reflexivity. Qed.
 
-(* a declaration  ident ':' value ';'  inside a ruleset *)
-Lemma step_decl p st0 prop c vt vb s ts :
+(* a declaration  ident ':' value ';'  inside a ruleset, with optional whitespace before each of its tokens *)
+Lemma step_decl p st0 o1 prop o2 c o3 vt vb o4 s ts :
   wf_state p (SQualifiedRuleDeclarationList :: st0)
-           ((TIdent, prop) :: (TColon, c) :: (vt, vb) :: (TSemicolon, s) :: ts) ->
+           (optws o1 ++ (TIdent, prop) :: optws o2 ++ (TColon, c) :: optws o3 ++ (vt, vb) :: optws o4 ++ (TSemicolon, s) :: ts) ->
   is_val vt = true -> punct (vt, vb) = false ->
   exists p', parse_next p = POk (GDeclaration, p') /\ ptt p' = TIdent /\ pdata p' = to_lower prop /\
     pbuf p' = [(vt, vb)] /\ perr p' = false /\ wf_state p' (SQualifiedRuleDeclarationList :: st0) ts.
 Proof.
   intros (Hi & Hl & Hst & Hlv & Hpe & Hkw & Hsty) Hval Hpun.
-  unfold parse_next. cbv zeta. change (prevend (set_err p false)) with (prevend p). rewrite Hpe.
-  destruct (pop_token_plain (next_fuel p) true (set_err p false) TIdent prop _ Hl eq_refl) as (z1 & Hpop & Hl1 & Hn1).
-  rewrite Hpop. cbn [pbind fst snd].
-  destruct (next_fuel_S p _ _ _ Hi Hn1 eq_refl) as (k & HF & Hi1). rewrite HF.
-  set (F := S (S (S k))).
-  cbn [set_tok relex set_err pst]. rewrite Hst.
-  unfold parse_qualified_rule_declaration_list. rewrite skip_semicolons_none by (cbn; discriminate). cbn [pbind]. cbv zeta.
-  cbn [set_tok ptt]. evis. cbn [orb].
-  unfold parse_declaration_list. cbn [set_tok ptt]. evis. cbn [pbind].
-  rewrite skip_semicolons_none by (cbn; discriminate). cbn [pbind set_tok ptt]. evis. cbn [pbind orb]. cbv zeta. cbn [set_tok ptt]. evis.
-  cbn [orb]. unfold parse_declaration. cbn [set_tok ptt pdata].
-  (* ':' *)
-  unfold F at 1. rewrite declaration_loop_S.
-  match goal with |- context [pop_token F false ?q] => set (q1 := q) end.
-  assert (Hq1 : lexes (pl q1) ((TColon, c) :: (vt, vb) :: (TSemicolon, s) :: ts)) by exact Hl1.
-  destruct (pop_token_plain F false q1 TColon c _ Hq1 eq_refl) as (z2 & Hpop2 & Hl2 & Hn2). rewrite Hpop2.
-  cbn [pbind fst snd]. unfold ends_unit. evis. cbn [orb andb]. unfold closes. evis. cbn [orb andb].
-  unfold adjust_level, opens, closes. evis. cbn [orb]. subst q1.
-  cbn [relex set_buf set_tok set_err pbuf rev app of_opt pbind prevws prevcomment orb andb].
-  (* the value *)
-  rewrite declaration_loop_S.
-  match goal with |- context [pop_token F false ?q] => set (q2 := q) end.
-  assert (Hq2 : lexes (pl q2) ((vt, vb) :: (TSemicolon, s) :: ts)) by exact Hl2.
+  assert (HFk : exists k, next_fuel p = S (S (S k))).
+  { destruct o1; cbn [optws app] in Hl; eapply next_fuel_lexes; eassumption. }
+  destruct HFk as (k & HF).
   assert (Hplain : plain_tok vt = true) by (destruct vt; try discriminate Hval; reflexivity).
-  destruct (pop_token_plain F false q2 vt vb _ Hq2 Hplain) as (z3 & Hpop3 & Hl3 & Hn3). rewrite Hpop3.
-  cbn [pbind fst snd].
-  assert (Hnot : ends_unit (relex q2 z3 false false) vt = false /\ is_t vt TLeftBrace = false /\ closes vt = false /\
-                 opens vt = false).
-  { unfold ends_unit, closes, opens. destruct vt; try discriminate Hval; repeat split; reflexivity. }
-  destruct Hnot as (Hn_e & Hn_l & Hn_c & Hn_o). rewrite Hn_e, Hn_l, Hn_c. cbn [andb].
-  unfold adjust_level. rewrite Hn_o, Hn_c. subst q2.
-  cbn [relex push_buf set_buf set_tok set_err pbuf rev app of_opt pbind prevws prevcomment orb andb].
-  (* ';' *)
-  rewrite declaration_loop_S.
-  match goal with |- context [pop_token F false ?q] => set (q3 := q) end.
-  assert (Hq3 : lexes (pl q3) ((TSemicolon, s) :: ts)) by exact Hl3.
-  destruct (pop_token_plain F false q3 TSemicolon s ts Hq3 eq_refl) as (z4 & Hpop4 & Hl4 & Hn4). rewrite Hpop4.
-  cbn [pbind fst snd]. unfold ends_unit. evis.
-  assert (Hlvq3 : plevel (relex q3 z4 false false) = 0) by exact Hlv. rewrite Hlvq3. cbn [Z.eqb orb andb].
-  subst q3.
   assert (Hws : is_t vt TWhitespace = false) by (destruct vt; try discriminate Hval; reflexivity).
-  repeat (progress (cbn [relex push_buf set_buf set_tok set_err pbuf app drop_ws fst compact rev]; unfold is_wstok; cbn [fst]; evis; rewrite ?Hws)).
-  assert (Hi4 : css_inv z4).
-  { eapply css_inv_next; [|exact Hn4]. eapply css_inv_next; [|exact Hn3]. eapply css_inv_next; [|exact Hn2]. exact Hi1. }
-  eexists. split; [reflexivity|].
-  cbn [set_prevend set_tok set_buf relex set_err ptt pdata pbuf perr].
-  split; [reflexivity|]. split; [reflexivity|]. split; [reflexivity|]. split; [reflexivity|].
-  unfold wf_state. cbn [set_prevend set_tok set_buf relex set_err pl pst plevel prevend keepws isstyle].
-  split; [exact Hi4|]. split; [exact Hl4|]. auto.
+  assert (Hnot : forall q, ends_unit q vt = false /\ is_t vt TLeftBrace = false /\ closes vt = false /\ opens vt = false).
+  { intros q. unfold ends_unit, closes, opens. destruct vt; try discriminate Hval; repeat split; reflexivity. }
+  destruct o1 as [w1|], o2 as [w2|], o3 as [w3|], o4 as [w4|]; cbn [optws app] in Hl.
+  all: unfold parse_next; cbv zeta; change (prevend (set_err p false)) with (prevend p); rewrite Hpe.
+  all: pop_tac (next_fuel p) true (set_err p false) Hi Hkw Hl (eq_refl true) (next_fuel_pos p Hi) z1 Hpop Hl1 Hi1.
+  all: rewrite Hpop; cbn [pbind fst snd]; rewrite HF; set (F := S (S (S k))).
+  all: assert (HF1 : (1 <= F)%nat) by (unfold F; lia).
+  all: cbn [set_tok relex set_err pst]; rewrite Hst.
+  all: unfold parse_qualified_rule_declaration_list; rewrite skip_semicolons_none by (cbn; discriminate); cbn [pbind]; cbv zeta.
+  all: cbn [set_tok ptt]; evis; cbn [orb].
+  all: unfold parse_declaration_list; cbn [set_tok ptt]; evis; cbn [pbind].
+  all: rewrite skip_semicolons_none by (cbn; discriminate); cbn [pbind set_tok ptt]; evis; cbn [pbind orb]; cbv zeta; cbn [set_tok ptt]; evis.
+  all: cbn [orb]; unfold parse_declaration; cbn [set_tok ptt pdata]; evis; cbv beta iota.
+  (* ':' *)
+  all: unfold F at 1; rewrite declaration_loop_S.
+  all: match goal with |- context [pop_token _ false ?q] => set (q1 := q) end.
+  all: assert (Hiq1 : css_inv (pl q1)) by exact Hi1.
+  all: assert (Hkq1 : keepws q1 = false) by exact Hkw.
+  all: pop_tac F false q1 Hiq1 Hkq1 Hl1 (eq_refl true) HF1 z2 Hpop2 Hl2 Hi2.
+  all: rewrite Hpop2; cbn [pbind fst snd]; unfold ends_unit; evis; cbn [orb andb]; unfold closes; evis; cbn [orb andb].
+  all: unfold adjust_level, opens, closes; evis; cbn [orb]; subst q1.
+  all: cbn [relex set_buf set_tok set_err pbuf rev app of_opt pbind prevws prevcomment orb andb].
+  all: try unfold is_wstok; cbn [fst]; evis; cbn [negb andb].
+  all: cbn [push_buf relex set_buf set_tok set_err pbuf app].
+  (* the value *)
+  all: rewrite declaration_loop_S.
+  all: match goal with |- context [pop_token _ false ?q] => set (q2 := q) end.
+  all: assert (Hiq2 : css_inv (pl q2)) by exact Hi2.
+  all: assert (Hkq2 : keepws q2 = false) by exact Hkw.
+  all: pop_tac F false q2 Hiq2 Hkq2 Hl2 Hplain HF1 z3 Hpop3 Hl3 Hi3.
+  all: rewrite Hpop3; cbn [pbind fst snd].
+  all: match goal with |- context [ends_unit ?q ?vv] => destruct (Hnot q) as (Hn_e & Hn_l & Hn_c & Hn_o) end.
+  all: rewrite Hn_e, Hn_l, Hn_c; cbn [andb]; unfold adjust_level; rewrite Hn_o, Hn_c; subst q2.
+  all: cbn [relex push_buf set_buf set_tok set_err pbuf rev app of_opt pbind prevws prevcomment orb andb].
+  all: try unfold is_wstok; cbn [fst]; evis; cbn [negb andb].
+  all: cbn [push_buf relex set_buf set_tok set_err pbuf app].
+  (* ';' *)
+  all: rewrite declaration_loop_S.
+  all: match goal with |- context [pop_token _ false ?q] => set (q3 := q) end.
+  all: assert (Hiq3 : css_inv (pl q3)) by exact Hi3.
+  all: assert (Hkq3 : keepws q3 = false) by exact Hkw.
+  all: pop_tac F false q3 Hiq3 Hkq3 Hl3 (eq_refl true) HF1 z4 Hpop4 Hl4 Hi4.
+  all: rewrite Hpop4; cbn [pbind fst snd]; unfold ends_unit; evis.
+  all: match goal with |- context [plevel (relex ?pp ?zz ?w false)] =>
+         assert (Hlvq3 : plevel (relex pp zz w false) = 0) by exact Hlv; rewrite Hlvq3 end.
+  all: cbn [Z.eqb orb andb]; subst q3.
+  all: repeat (progress (cbn [relex push_buf set_buf set_tok set_err pbuf app drop_ws fst compact rev]; try unfold is_wstok; cbn [fst]; evis; rewrite ?Hws)).
+  all: eexists; split; [reflexivity|].
+  all: cbn [set_prevend set_tok set_buf relex set_err ptt pdata pbuf perr].
+  all: split; [reflexivity|]; split; [reflexivity|]; split; [reflexivity|]; split; [reflexivity|].
+  all: unfold wf_state; cbn [set_prevend set_tok set_buf relex set_err pl pst plevel prevend keepws isstyle].
+  all: split; [exact Hi4|]; split; [exact Hl4|]; auto.
 Qed.
 
 (* --- the grammar and the units it denotes ------------------------------------------------------------------------ *)
-Definition decl_t := (list Z * ttype * list Z)%type.            (* property name, value token *)
-Definition rule_t := (list Z * list decl_t)%type.               (* selector identifier, declarations *)
+(* w1 property w2 ':' w3 value w4 ';' *)
+Record decl_t := mkDecl { d_w1 : ws_t; d_prop : list Z; d_w2 : ws_t; d_w3 : ws_t; d_vt : ttype; d_vb : list Z; d_w4 : ws_t }.
+(* w1 selector w2 '{' declarations w3 '}' *)
+Record rule_t := mkRule { r_w1 : ws_t; r_sel : list Z; r_w2 : ws_t; r_decls : list decl_t; r_w3 : ws_t }.
 
 Definition decl_toks (d : decl_t) : list tok :=
-  let '(prop, vt, vb) := d in [(TIdent, prop); (TColon, [58]); (vt, vb); (TSemicolon, [59])].
+  optws (d_w1 d) ++ (TIdent, d_prop d) :: optws (d_w2 d) ++ (TColon, [58]) :: optws (d_w3 d) ++ (d_vt d, d_vb d) ::
+  optws (d_w4 d) ++ [(TSemicolon, [59])].
 Definition rule_toks (r : rule_t) : list tok :=
-  (TIdent, fst r) :: (TLeftBrace, [123]) :: concat (map decl_toks (snd r)) ++ [(TRightBrace, [125])].
+  optws (r_w1 r) ++ (TIdent, r_sel r) :: optws (r_w2 r) ++ (TLeftBrace, [123]) :: concat (map decl_toks (r_decls r)) ++
+  optws (r_w3 r) ++ [(TRightBrace, [125])].
 
-Definition decl_ok (d : decl_t) : Prop := let '(prop, vt, vb) := d in is_val vt = true /\ punct (vt, vb) = false.
-Definition rule_ok (r : rule_t) : Prop := one_of [44; 62; 43; 126] (fst r) = false /\ Forall decl_ok (snd r).
+Definition decl_ok (d : decl_t) : Prop := is_val (d_vt d) = true /\ punct (d_vt d, d_vb d) = false.
+Definition rule_ok (r : rule_t) : Prop := one_of [44; 62; 43; 126] (r_sel r) = false /\ Forall decl_ok (r_decls r).
 
 (* what the caller sees of one call: grammar type, token type, data, and Values() for the units that set them *)
 Definition unit_t := (gtype * ttype * list Z * list tok)%type.
@@ -271,9 +344,9 @@ Definition view (r : gtype * parser) : unit_t :=
   | g => (g, ptt (snd r), pdata (snd r), [])
   end.
 
-Definition decl_unit (d : decl_t) : unit_t := let '(prop, vt, vb) := d in (GDeclaration, TIdent, to_lower prop, [(vt, vb)]).
+Definition decl_unit (d : decl_t) : unit_t := (GDeclaration, TIdent, to_lower (d_prop d), [(d_vt d, d_vb d)]).
 Definition rule_units (r : rule_t) : list unit_t :=
-  (GBeginRuleset, TWhitespace, [], [(TIdent, fst r)]) :: map decl_unit (snd r) ++ [(GEndRuleset, TRightBrace, [125], [])].
+  (GBeginRuleset, TWhitespace, [], [(TIdent, r_sel r)]) :: map decl_unit (r_decls r) ++ [(GEndRuleset, TRightBrace, [125], [])].
 
 Definition last_state (p : parser) (tr : list (gtype * parser)) : parser :=
   match rev tr with r :: _ => snd r | [] => p end.
@@ -302,31 +375,34 @@ Lemma decls_run : forall decls p st0 rest,
   exists tr, parse_run (length decls) p = POk tr /\ map view tr = map decl_unit decls /\ no_err tr /\
     wf_state (last_state p tr) (SQualifiedRuleDeclarationList :: st0) rest.
 Proof.
-  induction decls as [|[[prop vt] vb] decls IH]; intros p st0 rest Hw Hok.
+  induction decls as [|[w1 prop w2 w3 vt vb w4] decls IH]; intros p st0 rest Hw Hok.
   - exists []. cbn [length parse_run map concat app] in *. split; [reflexivity|]. split; [reflexivity|]. split; [constructor|exact Hw].
-  - inversion Hok as [|? ? Hd0 Hok']; subst. unfold decl_ok in Hd0. destruct Hd0 as (Hv & Hp). cbn [map concat decl_toks app] in Hw.
-    destruct (step_decl p st0 prop [58] vt vb [59] _ Hw Hv Hp) as (p1 & Hn & Ht & Hd & Hb & He & Hw1).
+  - inversion Hok as [|? ? Hd0 Hok']; subst. unfold decl_ok in Hd0. cbn [d_vt d_vb] in Hd0. destruct Hd0 as (Hv & Hp).
+    cbn [map concat] in Hw. unfold decl_toks at 1 in Hw. cbn [d_w1 d_prop d_w2 d_w3 d_vt d_vb d_w4] in Hw.
+    repeat (rewrite <- app_assoc in Hw; cbn [app] in Hw).
+    destruct (step_decl p st0 w1 prop w2 [58] w3 vt vb w4 [59] _ Hw Hv Hp) as (p1 & Hn & Ht & Hd & Hb & He & Hw1).
     destruct (IH p1 st0 rest Hw1 Hok') as (tr & Hrun & Hview & Hne & Hlast).
     exists ((GDeclaration, p1) :: tr). split; [|split; [|split]].
     + cbn [length parse_run]. rewrite Hn. cbn [pbind snd]. rewrite Hrun. reflexivity.
-    + cbn [map]. rewrite Hview. f_equal. unfold view, decl_unit. cbn [fst snd]. rewrite Ht, Hd, Hb. reflexivity.
+    + cbn [map]. rewrite Hview. f_equal. unfold view, decl_unit. cbn [fst snd d_prop d_vt d_vb]. rewrite Ht, Hd, Hb. reflexivity.
     + constructor; [exact He|exact Hne].
     + rewrite last_state_cons. exact Hlast.
 Qed.
 
-Lemma rules_run : forall rules p,
-  wf_state p [SStylesheet] (concat (map rule_toks rules)) -> Forall rule_ok rules ->
+Lemma rules_run : forall rules p rest,
+  wf_state p [SStylesheet] (concat (map rule_toks rules) ++ rest) -> Forall rule_ok rules ->
   exists tr, parse_run (length (concat (map rule_units rules))) p = POk tr /\
-    map view tr = concat (map rule_units rules) /\ no_err tr /\ wf_state (last_state p tr) [SStylesheet] [].
+    map view tr = concat (map rule_units rules) /\ no_err tr /\ wf_state (last_state p tr) [SStylesheet] rest.
 Proof.
-  induction rules as [|[sel decls] rules IH]; intros p Hw Hok.
-  - exists []. cbn [map concat length parse_run] in *. split; [reflexivity|]. split; [reflexivity|]. split; [constructor|exact Hw].
-  - inversion Hok as [|? ? (Hs & Hd) Hok']; subst. cbn [fst snd] in *.
-    cbn [map concat rule_toks fst snd app] in Hw. rewrite <- app_assoc in Hw. cbn [app] in Hw.
-    destruct (step_begin p [] sel [123] _ Hw Hs) as (p1 & Hn1 & Ht1 & Hd1 & Hb1 & He1 & Hw1).
+  induction rules as [|[w1 sel w2 decls w3] rules IH]; intros p rest Hw Hok.
+  - exists []. cbn [map concat length parse_run app] in *. split; [reflexivity|]. split; [reflexivity|]. split; [constructor|exact Hw].
+  - inversion Hok as [|? ? (Hs & Hd) Hok']; subst. cbn [r_sel r_decls] in *.
+    cbn [map concat] in Hw. unfold rule_toks at 1 in Hw. cbn [r_w1 r_sel r_w2 r_decls r_w3] in Hw.
+    repeat (rewrite <- app_assoc in Hw; cbn [app] in Hw).
+    destruct (step_begin p [] w1 sel w2 [123] _ Hw Hs) as (p1 & Hn1 & Ht1 & Hd1 & Hb1 & He1 & Hw1).
     destruct (decls_run decls p1 [SStylesheet] _ Hw1 Hd) as (tr2 & Hrun2 & Hview2 & Hne2 & Hw2).
-    destruct (step_end _ [SStylesheet] [125] _ Hw2) as (p3 & Hn3 & Ht3 & Hd3 & He3 & Hw3).
-    destruct (IH p3 Hw3 Hok') as (tr4 & Hrun4 & Hview4 & Hne4 & Hw4).
+    destruct (step_end _ [SStylesheet] w3 [125] _ Hw2) as (p3 & Hn3 & Ht3 & Hd3 & He3 & Hw3).
+    destruct (IH p3 rest Hw3 Hok') as (tr4 & Hrun4 & Hview4 & Hne4 & Hw4).
     exists (((GBeginRuleset, p1) :: tr2 ++ [(GEndRuleset, p3)]) ++ tr4).
     assert (Hrun123 : parse_run (S (length decls + 1)) p = POk ((GBeginRuleset, p1) :: tr2 ++ [(GEndRuleset, p3)])).
     { cbn [parse_run]. rewrite Hn1. cbn [pbind snd].
@@ -335,10 +411,10 @@ Proof.
     split; [|split; [|split]].
     + match goal with |- parse_run ?n p = _ =>
         replace n with (S (length decls + 1) + length (concat (map rule_units rules)))%nat end.
-      2:{ cbn [map concat]. rewrite app_length. unfold rule_units. cbn [fst snd length]. rewrite app_length, map_length. cbn [length]. lia. }
+      2:{ cbn [map concat]. rewrite app_length. unfold rule_units. cbn [r_sel r_decls length]. rewrite app_length, map_length. cbn [length]. lia. }
       apply parse_run_app; [exact Hrun123|].
       rewrite last_state_cons, last_state_app. exact Hrun4.
-    + cbn [map concat rule_units fst snd]. rewrite map_app. cbn [map]. rewrite map_app. cbn [map].
+    + cbn [map concat]. unfold rule_units at 1. cbn [r_sel r_decls]. rewrite map_app. cbn [map]. rewrite map_app. cbn [map].
       rewrite Hview2, Hview4. unfold view at 1 2. cbn [fst snd]. rewrite Ht1, Hd1, Hb1, Ht3, Hd3.
       reflexivity.
     + unfold no_err in *. apply Forall_app. split; [|exact Hne4]. constructor; [exact He1|].
@@ -352,30 +428,45 @@ Proof.
 Qed.
 
 (* C08 (partial): a stylesheet whose token list (as the lexer returns it) is a sequence of rulesets
-       ident '{' ( ident ':' value ';' )* '}'
+       ws? ident ws? '{' ( ws? ident ws? ':' ws? value ws? ';' )* ws? '}'        followed by  ws?
    yields exactly BeginRuleset [selector], one Declaration (lower-cased property name, [value]) per declaration,
-   EndRuleset — for every rule in order — and then the end-of-input report; no parse error is reported. *)
-Lemma cssparse_wellformed_proof : forall d rules,
-  css_lex d = LexDone (concat (map rule_toks rules)) -> Forall rule_ok rules ->
+   EndRuleset — for every rule in order — and then the end-of-input report; no parse error is reported and no
+   whitespace shows up in Values(). *)
+Lemma cssparse_wellformed_proof : forall d rules w,
+  css_lex d = LexDone (concat (map rule_toks rules) ++ optws w) -> Forall rule_ok rules ->
   exists tr, parse_run (length (concat (map rule_units rules)) + 1) (new_parser d false) = POk tr /\
     map view tr = concat (map rule_units rules) ++ [(GError, TError, [], [])] /\ no_err tr.
 Proof.
-  intros d rules Hlex Hok.
-  assert (Hw : wf_state (new_parser d false) [SStylesheet] (concat (map rule_toks rules))).
+  intros d rules w Hlex Hok.
+  assert (Hw : wf_state (new_parser d false) [SStylesheet] (concat (map rule_toks rules) ++ optws w)).
   { unfold wf_state. cbn [new_parser pl pst plevel prevend keepws isstyle negb]. split; [apply css_inv_init|].
     split; [exists (S (length d)); exact Hlex|]. auto. }
-  destruct (rules_run rules _ Hw Hok) as (tr & Hrun & Hview & Hne & Hw').
-  destruct (step_eof _ Hw') as (p' & Hn & He & Ht).
+  destruct (rules_run rules _ _ Hw Hok) as (tr & Hrun & Hview & Hne & Hw').
+  destruct (step_eof _ _ Hw') as (p' & Hn & He & Ht).
   exists (tr ++ [(GError, p')]). split; [|split].
   - apply parse_run_app; [exact Hrun|]. cbn [parse_run]. rewrite Hn. reflexivity.
   - rewrite map_app, Hview. cbn [map]. unfold view. cbn [fst snd]. rewrite Ht. reflexivity.
   - unfold no_err. apply Forall_app. split; [exact Hne|]. constructor; [exact He|constructor].
 Qed.
 
-(* "a{B:1;c:x;}d{}" *)
+(* "a{B:1;c:x;}d{}"  and  " a {\n B : 1 ;c:x; }\nd{}\n" *)
 Example wellformed_example :
-  let rules := [([97], [([66], TNumber, [49]); ([99], TIdent, [120])]); ([100], [])] in
-  css_lex [97; 123; 66; 58; 49; 59; 99; 58; 120; 59; 125; 100; 123; 125] = LexDone (concat (map rule_toks rules)) /\
+  let rules := [mkRule None [97] None [mkDecl None [66] None None TNumber [49] None; mkDecl None [99] None None TIdent [120] None] None;
+                mkRule None [100] None [] None] in
+  css_lex [97; 123; 66; 58; 49; 59; 99; 58; 120; 59; 125; 100; 123; 125] = LexDone (concat (map rule_toks rules) ++ optws None) /\
+  Forall rule_ok rules.
+Proof.
+  cbv zeta. split; [vm_compute; reflexivity|].
+  repeat constructor.
+Qed.
+
+Example wellformed_example_ws :
+  let rules := [mkRule (Some [32]) [97] (Some [32])
+                  [mkDecl (Some [10; 32]) [66] (Some [32]) (Some [32]) TNumber [49] (Some [32]);
+                   mkDecl None [99] None None TIdent [120] None] (Some [32]);
+                mkRule (Some [10]) [100] None [] None] in
+  css_lex [32; 97; 32; 123; 10; 32; 66; 32; 58; 32; 49; 32; 59; 99; 58; 120; 59; 32; 125; 10; 100; 123; 125; 10] =
+    LexDone (concat (map rule_toks rules) ++ optws (Some [10])) /\
   Forall rule_ok rules.
 Proof.
   cbv zeta. split; [vm_compute; reflexivity|].
